@@ -769,6 +769,85 @@ def gen_entries():
     return out
 
 
+def arith2_entries(pow_only=False):
+    """Less travelled primitive operations: signed differences, byte reversal, power by squaring
+    with constant exponents, min / max / minmax, zero / one tests, NonZero conversions, the
+    deprecated u256 overflow helpers."""
+    from matrix import UNSIGNED, SIGNED, rng, out_v
+    E = []
+    nl = ("nonlinear",)
+
+    def zi(x):
+        return z3.IntVal(x) if isinstance(x, int) else x
+
+    def power(x, k):
+        e = z3.IntVal(1)
+        for _ in range(k):
+            e = e * x
+        return e
+    for t, n in SIGNED.items():
+        ut = "u" + t[1:]
+        E.append(Entry(f"diff_{t}", [("a", t), ("b", t)], f"Result<{ut}, {ut}>",
+                       f"core::integer::{t}_diff(a, b)",
+                       (lambda n: lambda a, b: [
+                           (i_(a) >= i_(b), ok(("enum", 0, 0, {0: vint(i_(a) - i_(b))}, None))),
+                           (i_(a) < i_(b), ok(("enum", 1, 1, {1: vint(2**n + i_(a) - i_(b))}, None)))])(n)))
+    def brev(a):
+        bv = z3.Int2BV(zi(i_(a)), 128)
+        return z3.BV2Int(z3.Concat(*[z3.Extract(8 * k + 7, 8 * k, bv) for k in range(16)]))
+    E.append(Entry("byte_reverse_u128", [("a", "u128")], "u128", "core::integer::u128_byte_reverse(a)",
+                   lambda a: [(True, ok(vint(brev(a))))]))
+    ALL = list(UNSIGNED) + ["u256"] + list(SIGNED)
+    P_ = []  # power by squaring recurses and therefore draws gas: a family of its own (`pow`)
+    for t in ALL + ["felt252"]:
+        lo, hi = rng(t)
+        for k in ((0, 1, 2, 3, 5) if t in ("u8", "i8", "u16", "felt252") else (0, 2, 3)):
+            if t == "felt252":
+                spec = (lambda k: lambda a: [(True, ok(vint(power(zi(i_(a)), k) % P)))])(k)
+            else:
+                def spec(a, k=k, t=t, lo=lo, hi=hi):
+                    e = power(zi(i_(a)), k)
+                    return [(z3.And(e >= lo, e <= hi), ok(out_v(t, e))),
+                            (z3.Or(e > hi, e < lo), panic(short(f"{t}_mul Overflow")))]
+            P_.append(Entry(f"pow{k}_{t}", [("a", t)], t, f"core::num::traits::Pow::pow(a, {k})",
+                            spec, tags=nl if k > 1 else ()))
+    for t in ALL:
+        two = [("a", t), ("b", t)]
+        mn = lambda a, b: z3.If(i_(a) <= i_(b), i_(a), i_(b))
+        mx = lambda a, b: z3.If(i_(a) <= i_(b), i_(b), i_(a))
+        E.append(Entry(f"min_{t}", two, t, "core::cmp::min(a, b)",
+                       (lambda t: lambda a, b: [(True, ok(out_v(t, mn(a, b))))])(t)))
+        E.append(Entry(f"max_{t}", two, t, "core::cmp::max(a, b)",
+                       (lambda t: lambda a, b: [(True, ok(out_v(t, mx(a, b))))])(t)))
+        E.append(Entry(f"minmax_{t}", two, f"({t}, {t})", "core::cmp::minmax(a, b)",
+                       (lambda t: lambda a, b: [(True, ok(vtuple(out_v(t, mn(a, b)),
+                                                                 out_v(t, mx(a, b)))))])(t)))
+        E.append(Entry(f"is_zero_{t}", [("a", t)], "bool", "core::num::traits::Zero::is_zero(@a)",
+                       lambda a: [(True, ok(vbool(i_(a) == 0)))]))
+        E.append(Entry(f"is_non_zero_{t}", [("a", t)], "bool",
+                       "core::num::traits::Zero::is_non_zero(@a)",
+                       lambda a: [(True, ok(vbool(i_(a) != 0)))]))
+        E.append(Entry(f"is_one_{t}", [("a", t)], "bool", "core::num::traits::One::is_one(@a)",
+                       lambda a: [(True, ok(vbool(i_(a) == 1)))]))
+        E.append(Entry(f"nz_{t}", [("a", t)], f"Option<NonZero<{t}>>", "a.try_into()",
+                       (lambda t: lambda a: [(i_(a) != 0, ok(some(out_v(t, i_(a))))),
+                                             (i_(a) == 0, ok(none()))])(t)))
+    m256 = 2**256
+    E.append(Entry("u256_overflow_sub_dep", [("a", "u256"), ("b", "u256")], "(u256, bool)",
+                   "core::integer::u256_overflow_sub(a, b)",
+                   lambda a, b: [(True, ok(vtuple(out_v("u256", (i_(a) - i_(b)) % m256),
+                                                  vbool(i_(a) < i_(b)))))]))
+    E.append(Entry("u256_overflow_mul_dep", [("a", "u256"), ("b", "u256")], "(u256, bool)",
+                   "core::integer::u256_overflow_mul(a, b)",
+                   lambda a, b: [(True, ok(vtuple(out_v("u256", (i_(a) * i_(b)) % m256),
+                                                  vbool(i_(a) * i_(b) >= m256))))], tags=nl))
+    return P_ if pow_only else E
+
+
+def pow_entries():
+    return arith2_entries(pow_only=True)
+
+
 def shuf_entries():
     """C01/C05: seeded data-movement functions with reference semantics (gen_shuf.py)."""
     import gen_shuf
@@ -781,7 +860,8 @@ EXTRA_FAMILIES = {
     "bounded": bounded_entries, "plumb": plumbing_entries, "gas": gas_entries,
     "hash": hash_entries, "gen": gen_entries, "spec": specialization_entries,
     "fold": fold_entries, "bigap": bigap_entries, "flow": flow_entries,
-    "edge": edge_entries, "shuf": shuf_entries,
+    "edge": edge_entries, "shuf": shuf_entries, "arith2": arith2_entries,
+    "pow": pow_entries,
 }
 import gen as _gen
 EXTRA_HEADERS = {"shuf": SHUF_HEADER, "edge": EDGE_HEADER, "flow": FLOW_HEADER, "spec": SPEC_HEADER, "gen": _gen.PRELUDE, "bounded": BI_HEADER, "plumb": PLUMB_HEADER, "gas": GAS_HEADER, "hash": HASH_HEADER}
